@@ -307,43 +307,7 @@ func c03Retyping(p *core.Program, r *core.Report, e *engines) {
 		if b, ok := info.TypeOf(fd.Type.Results.List[0].Type).(*types.Basic); !ok || b.Kind() != types.Bool {
 			continue
 		}
-		var ts *ast.TypeSwitchStmt
-		for _, st := range fd.Body.List {
-			if t, ok := st.(*ast.TypeSwitchStmt); ok {
-				ts = t
-			}
-		}
-		if ts == nil {
-			continue
-		}
-		ops := map[string]bool{}
-		hasInt := false
-		for _, c := range ts.Body.List {
-			cc := c.(*ast.CaseClause)
-			kind := ""
-			for _, ex := range cc.List {
-				if k := e.nk.KindOfType(info.TypeOf(ex)); k != nil {
-					kind = k.Name
-				}
-			}
-			pre := map[string]string{"UnaryNode": "unary ", "BinaryNode": "binary "}[kind]
-			if kind == "IntegerNode" {
-				hasInt = true
-			}
-			if pre == "" {
-				continue
-			}
-			ast.Inspect(cc, func(n ast.Node) bool {
-				if in, ok := n.(*ast.CaseClause); ok && in != cc {
-					for _, ex := range in.List {
-						if v, ok := constStringOf(info, ex); ok {
-							ops[pre+v] = true
-						}
-					}
-				}
-				return true
-			})
-		}
+		ops, hasInt, _ := operatorsOfNodeSwitch(info, e.nk, fd)
 		if hasInt && len(ops) > 0 {
 			predOps, wherePred = ops, core.FuncName("checker", fd)
 		}
